@@ -14,6 +14,18 @@ SASL = dict(sasl_auth=4, sasl_challenge=4, sasl_response=4, sasl_success=4, sasl
 STANZA_TUS = ['src/base/QXmppStanza.cpp', 'src/base/QXmppIq.cpp', 'src/base/QXmppBindIq.cpp', 'src/base/QXmppPingIq.cpp', 'src/base/QXmppStreamFeatures.cpp', 'src/base/QXmppSasl.cpp',
               'src/base/QXmppStreamManagement.cpp', 'src/base/QXmppUtils.cpp', 'src/base/Stream.cpp', 'src/base/QXmppNonza.cpp']
 MODELS = ['qt_core.c', 'qt_list.c', 'c02_dom.c', 'c02_env.c']
+def iqcase(n1, *children):
+    """children: (tag, ns[, (gtag, gns)]) with indices into the vocabulary of h_stanza.cpp: tags iq,error,bind,ping,text,item-not-found,zz; ns '',client,stanzas,bind,x:y"""
+    m = n1
+    for i, ch in enumerate(children):
+        b = 2 + 11 * i; m |= ch[0] << b; m |= ch[1] << (b + 3)
+        if len(ch) > 2: m |= 1 << (b + 5); m |= ch[2][0] << (b + 6); m |= ch[2][1] << (b + 9)
+    return m
+T_IQ, T_ERROR, T_BIND, T_PING, T_TEXT, T_INF, T_ZZ = range(7); N_NONE, N_CLIENT, N_STANZA, N_BIND, N_XY = range(5)
+IQ_SHAPES = dict(empty=iqcase(0), error_cond=iqcase(1, (T_ERROR, N_NONE, (T_INF, N_STANZA))), bind=iqcase(1, (T_BIND, N_BIND, (T_ZZ, N_NONE))),
+                 ext_error=iqcase(2, (T_ZZ, N_XY), (T_ERROR, N_NONE, (T_TEXT, N_STANZA))), error_error=iqcase(2, (T_ERROR, N_NONE, (T_INF, N_STANZA)), (T_ERROR, N_CLIENT)),
+                 ping_ext=iqcase(2, (T_PING, N_XY, (T_ZZ, N_XY)), (T_ZZ, N_NONE, (T_ERROR, N_NONE))))
+IQ_CASES = [I('iq_' + k, entry='h_iq', dom=6, cdefs={'VP_UTF8_LATIN1': 1, 'VP_CASE': v}, bound='shape %s (VP_CASE=%d); attribute presence/values and text symbolic' % (k, v)) for k, v in IQ_SHAPES.items()]
 SPEC = dict(
     property='C02',
     groups=[
@@ -22,7 +34,7 @@ SPEC = dict(
         dict(name='sasl', harness='h_sasl.cpp', tus=SASL_TUS, models=MODELS, loop_bounds=DOMLOOPS(8),
              instances=[I(e, dom=SASL[e]) for e in SASL]),
         dict(name='stanza', harness='h_stanza.cpp', tus=STANZA_TUS, models=MODELS,
-             instances=[I('error', dom=6), I('iq', dom=6)]),
+             instances=[I('error', dom=6)] + IQ_CASES),
     ],
     bounds=[], assumptions=[], outside=[],
 )
